@@ -7,7 +7,7 @@ CONSTANTS
   MaxRuns = 1
   EntQKinds = {"positive"}
   Budget = 1
-  Shapes = {"secure3", "insecure3", "secure4"}
+  Shapes = {"secure3", "insecure3"}
   Denials = {"nsec", "nsec3", "optout"}
   QKinds = {"wildcard", "wilddeep", "wildsub", "wcname", "wcnodata", "positive", "nxdomain"}
   AdvActs = {"ShortSig", "DropRrsig", "DropRrset", "ReplaceRdata", "WrongSigner", "Expire", "NotYetValid", "ReplayAncestor", "CorruptSigOctets", "ForgeSigned", "AddBadSig", "StripProof", "ForgeNsecRange", "SwapProof", "BadNsec3LabelSigned", "ZeroCounts", "ZeroTtl", "Inject", "CnameLoop", "MisapplyWildcard", "DenyExisting", "SigsFirst", "Duplicate", "OrphanSig", "WrongSoa"}
